@@ -56,8 +56,14 @@ def mutate(rng, seq, variant, p_mis, p_n):
 
 def gen_slot(rng, refs, contig, start, length, rev, variant, p_mis, p_n, plain, md=True, flatq=None):
     ref = refs[contig]
-    start = max(0, min(start, len(ref) - length - 12))
+    # dry run to learn how much reference the alignment consumes, so that it can end flush with the contig end
+    st = rng.getstate()
+    _, cig0 = gen_alignment(rng, ref, 0, length, plain)
+    rng.setstate(st)
+    consumed = sum(n for op, n in cig0 if op in (0, 2, 3))
+    start = max(0, min(start, len(ref) - consumed))       # position 0 and the last base of the contig are reachable
     seq, cigar = gen_alignment(rng, ref, start, length, plain)
+    assert start + consumed <= len(ref) and [c[:] for c in cigar] == [c[:] for c in cig0]
     seq = mutate(rng, seq, variant, p_mis, p_n)
     if flatq is not None:
         quals = [flatq] * len(seq)
@@ -135,9 +141,19 @@ def enc_opts(ds, kw):
             kw.get('dove_R1_distance', 0), kw.get('dove_R2_distance', 0)]
 
 
+def gen_locus(rng, refs, span):
+    """mostly inside the contig; 15% hugging position 0 and 12% hugging the last base (starts are clamped to the contig)"""
+    r = rng.random()
+    if r < 0.15:
+        return rng.randint(-span - 2, 0)
+    if r < 0.27:
+        return len(refs[0]) - rng.randint(2, span + 4)
+    return rng.randint(5, 150)
+
+
 def gen_case(rng, refs, n, wild, tier):
-    locus = rng.randint(5, 150)
     span = rng.choice([4, 6, 10, 16])
+    locus = gen_locus(rng, refs, span)
     kinds, frags = [], []
     for _ in range(n):
         k, f = gen_fragment(rng, refs, locus, span, wild)
@@ -164,7 +180,8 @@ def gen_history(rng, refs, wild):
     """operations on one Molecule object: growth by add_fragment / _add_fragment / add_molecule with get_consensus
     queries (dove_safe on/off, with_probs_and_obs on/off, repeated) in between"""
     n = rng.choice([2, 2, 3, 3, 4, 5, 6, 8, 12])
-    locus, span = rng.randint(5, 150), rng.choice([4, 6, 10, 16])
+    span = rng.choice([4, 6, 10, 16])
+    locus = gen_locus(rng, refs, span)
     kinds, frags = [], []
     same_strand = rng.random() < 0.6          # makes add_fragment accept most fragments
     for _ in range(n):
@@ -403,28 +420,48 @@ class Prop(fw.PropBase):
         for i in range(n_rand):
             n = self.rng.choice([1, 2, 2, 3, 3, 4, 5, 6, 8, 12]) if i % 3 else self.rng.randint(1, 12)
             cases.append(gen_case(self.rng, refs, n, wild=(i % 4 == 0), tier=self.tier))
-        # small exhaustive scope: 1..3 single-base-column fragments over calls {A,C,N} x quality {20,30}, all fragment shapes
+        # small exhaustive scope: 1..3 two-base fragments over calls {A,C,N} x quality {20,30}, all fragment shapes,
+        # in the middle of the contig, at reference position 0 and at the last two bases of the contig
         col = []
-        shapes = []
-        for b1, q1, b2, q2 in itertools.product('ACN', (20, 30), 'ACN', (20, 30)):
-            shapes.append([self._mini(b1, q1, False), self._mini(b2, q2, True)])
-        for b, q in itertools.product('ACN', (20, 30)):
-            shapes.append([self._mini(b, q, False), None])
-            shapes.append([None, self._mini(b, q, True)])
-        self.n_shapes = len(shapes)
-        pool = shapes
-        kmax = 2 if quick else 3
-        for k in range(1, kmax + 1):
-            for combo in itertools.combinations_with_replacement(range(len(pool)), k):
-                for ds in (False, True):
-                    col.append({'ds': ds, 'frags': [pool[i] for i in combo], 'orders': [list(range(k)), list(range(k))[::-1]],
-                                'kinds': ['mini'] * k})
+        L = len(refs[0])
+
+        def shapes_at(start, dove):
+            sh = []
+            for b1, q1, b2, q2 in itertools.product('ACN', (20, 30), 'ACN', (20, 30)):
+                sh.append([self._mini(b1, q1, False, start), self._mini(b2, q2, True, start)])
+            for b, q in itertools.product('ACN', (20, 30)):
+                sh.append([self._mini(b, q, False, start), None])
+                sh.append([None, self._mini(b, q, True, start)])
+            if dove is not None:
+                # dove-tailed / staggered mates: the reverse mate starts one base before (dove=-1) or after the forward mate
+                for b1, q1, b2, q2 in itertools.product('AC', (20, 30), 'AC', (20, 30)):
+                    f, r = (start + 1, start) if dove < 0 else (start, start + 1)
+                    sh.append([self._mini(b1, q1, False, f), self._mini(b2, q2, True, r)])
+                    sh.append([self._mini(b1, q1, True, r), self._mini(b2, q2, False, f)])
+            return sh
+        scopes = [('middle', shapes_at(30, None), 2 if quick else 3),
+                  ('position 0', shapes_at(0, -1), 1 if quick else 2),
+                  ('contig end', shapes_at(L - 3, -1) + shapes_at(L - 2, None)[:4], 1 if quick else 2)]
+        self.n_shapes = {name: len(sh) for name, sh, _ in scopes}
+        for name, pool, kmax in scopes:
+            for k in range(1, kmax + 1):
+                for combo in itertools.combinations_with_replacement(range(len(pool)), k):
+                    for ds in (False, True):
+                        col.append({'ds': ds, 'frags': [pool[i] for i in combo], 'orders': [list(range(k)), list(range(k))[::-1]],
+                                    'kinds': ['mini'] * k})
+        if quick:
+            # pairs of edge shapes: a sample in the quick tier (complete in thorough)
+            for name, pool, _ in scopes[1:]:
+                for _ in range(300):
+                    combo = [self.rng.randrange(len(pool)) for _ in range(2)]
+                    col.append({'ds': self.rng.random() < 0.5, 'frags': [pool[i] for i in combo], 'orders': [[0, 1], [1, 0]],
+                                'kinds': ['mini'] * 2})
         self.n_exh = len(col)
         return refs, cases + col
 
     @staticmethod
-    def _mini(b, q, rev):
-        return {'contig': 0, 'start': 30, 'seq': b + 'G', 'quals': [q, 30], 'rev': rev, 'cigar': [[0, 2]], 'md': True}
+    def _mini(b, q, rev, start=30):
+        return {'contig': 0, 'start': start, 'seq': b + 'G', 'quals': [q, 30], 'rev': rev, 'cigar': [[0, 2]], 'md': True}
 
     # ---------------------------------------------------------------- K
     def run_impl_cases(self, refs, cases, picks=(), histories=()):
@@ -510,15 +547,22 @@ class Prop(fw.PropBase):
             'molecules': len(cases), 'fragments_per_molecule': {str(k): v for k, v in sorted(hist_n.items())},
             'fragment_kinds': hist_kind, 'dove_safe_true': sum(1 for c in cases if c['ds']),
             'molecules_with_keyword_options': sum(1 for c in cases if c.get('kw')),
+            'molecules_covering_reference_position_0': sum(1 for r in rc if any(s and s[1] == 0 for f in r['minput'] for s in f)),
+            'molecules_covering_last_base_of_contig': sum(1 for r in rc if any(s and s[2] == len(refs[s[0]]) for f in r['minput'] for s in f)),
+            'edge_reads_by_slot': {k: sum(1 for r in rc for f in r['minput'] for i, s in enumerate(f) if s and i == n and (s[1] == 0 or s[2] == len(refs[s[0]])))
+                                   for k, n in (('R1', 0), ('R2', 1))},
             'orders_run': sum(len(c['orders']) for c in cases),
             'molecules_with_all_permutations': sum(1 for c in cases if len(c['orders']) >= 6 and len(c['frags']) >= 3),
             'tie_positions_seen': ties, 'positions_without_any_vote_seen': nonly, 'mate_quality_tie_calls_seen': mate_ties,
             'impl_exceptions_seen': errs, 'pick_best_cases': len(picks),
             'exhaustive': False,
             'small_scope_enumeration': {
-                'scope': 'complete: every multiset of 1..%d fragments over all %d one-column fragment shapes (mate calls '
-                         'A/C/N x quality 20/30, pairs, R1-only, R2-only), dove_safe on/off, both insertion orders'
-                         % (2 if self.tier == 'quick' else 3, self.n_shapes), 'cases': self.n_exh},
+                'scope': 'complete: every multiset of 1..%d two-base fragments over the shapes (mate calls A/C/N x quality 20/30, '
+                         'pairs, R1-only, R2-only) in the middle of the contig, and of 1..%d at reference position 0 and at the '
+                         'last bases of the contig (there also dove-tailed mates); dove_safe on/off, both insertion orders; '
+                         'shapes per place %r%s' % (2 if self.tier == 'quick' else 3, 1 if self.tier == 'quick' else 2, self.n_shapes,
+                                                    '; plus 600 sampled pairs of edge shapes' if self.tier == 'quick' else ''),
+                'cases': self.n_exh},
         })
         if not self.model_ok:
             return
